@@ -5,7 +5,7 @@
    documented rules as plain predicates over byte lists.  Bytes are arbitrary N, strings are
    arbitrary lists: nothing below is bounded or enumerated.
 
-   Clauses that are FALSE of the faithful model are kept visible as `..._full : Prop`, with a
+   Clauses that are FALSE of the faithful model (F4 isolation, unchecked conversions) are kept visible as `..._full : Prop`, with a
    `..._refuted` witness (each replayed on the real code by harness/g3/c19) and the strongest
    `..._partial` that holds. *)
 From V Require Import model.Base model.Names proofs.NamesProofs proofs.NamesConnProofs.
